@@ -209,6 +209,8 @@ pub fn search_with_timeout_and_memory<M: Mode>(
         
         // Only use LP if: (1) suitable AND (2) has objective in linear system
         // Without objective in linear system, LP can't help optimize
+        #[cfg(selen_verif)]
+        let is_suitable = is_suitable && !crate::verif_hooks::root_lp_disabled();
         if is_suitable && lp_has_objective {
             if LP_DEBUG {
                 eprintln!("LP: System is suitable for LP with objective, solving...");
